@@ -78,6 +78,16 @@ def steps(raw, rng):
                 out.append((f"rename with second alias at {path}", put(raw, path, {**sub, "fields": [ren2] + fs[1:]})))
             out.append((f"add field with default at {path}", put(raw, path, {**sub, "fields": fs + [{"name": "added", "type": "int", "default": 42}]})))
             out.append((f"add field without default at {path}", put(raw, path, {**sub, "fields": fs + [{"name": "added", "type": "int"}]})))
+            # reader-only fields whose JSON default is not the Python value it denotes (bytes / non-finite floats /
+            # records with nested defaults): the reader must see the denoted value
+            for k, (ft, dv) in enumerate([("bytes", "\u00ff\u0001"), ("double", "NaN"), ("float", "-Infinity"),
+                                          ({"type": "fixed", "name": f"AddedFx{len(path)}", "size": 2}, "\u0000\u00fe"),
+                                          ({"type": "record", "name": f"AddedRec{len(path)}", "fields": [
+                                              {"name": "z", "type": "int", "default": 5}, {"name": "b", "type": "bytes", "default": "\u0041"}]}, {}),
+                                          ({"type": "map", "values": "bytes"}, {"k": "\u00e9"}),
+                                          (["null", "int"], None), ({"type": "array", "items": "long"}, [1, 2])]):
+                out.append((f"add {ft if isinstance(ft, str) else (ft.get('type') if isinstance(ft, dict) else 'union')} field with JSON default #{k} at {path}",
+                            put(raw, path, {**sub, "fields": fs + [{"name": "added", "type": ft, "default": dv}]})))
             out.append((f"rename record with alias at {path}", put(raw, path, {**sub, "name": "Renamed" + sub["name"].rsplit('.', 1)[-1], "aliases": [sub["name"]]})))
             out.append((f"rename record no alias at {path}", put(raw, path, {**sub, "name": "Other" + sub["name"].rsplit('.', 1)[-1]})))
             out.append((f"other namespace same name at {path}", put(raw, path, {**sub, "name": "elsewhere." + sub["name"].rsplit('.', 1)[-1]})))
